@@ -192,4 +192,7 @@ def check(world, tier):
     for pk in ("Data", "Ack", "Error", "Oack"):
         d.ob("error" in seen.get(pk, ()), "stray-%s-path-missing" % pk.lower(), "no loop iteration answers a stray %s with an ERROR (seen: %s)" % (pk, sorted(seen.get(pk, ()))),
              nontrivial=False)
+    # "each transfer yields exactly its own file": a worker touches the path it was given and nothing else (shared with C03.a)
+    from . import C03
+    import_clause(world, tier, a, C03, "C03.a", ("worker-fs-path", "unexpected-fs-api"), "workers only touch their own target path")
     return rep
